@@ -2,6 +2,7 @@ import Gofasta.Driver.C03
 import Gofasta.Driver.C17
 import Gofasta.Driver.C16
 import Gofasta.Driver.C06
+import Gofasta.Driver.C10
 namespace Gofasta.Driver
 
 def dispatch (c : Case) : Verdict :=
@@ -11,6 +12,7 @@ def dispatch (c : Case) : Verdict :=
   | "C16" => runC16 c
   | "C06" => runC06 c
   | "C07" => runC06 c
+  | "C10" => runC10 c
   | _ => { agree := false, spec := "na", model := "unknown-property" }
 
 end Gofasta.Driver
